@@ -81,6 +81,8 @@ type Ctx struct {
 	States     uint64
 	Trans      uint64
 	emitViol   func(Violation)
+	tick       func() // tells the watchdog that a long multi-execution case is making progress
+	lastTick   uint64
 }
 
 func newCtx(c *Check, tier string) *Ctx {
@@ -88,7 +90,13 @@ func newCtx(c *Check, tier string) *Ctx {
 }
 
 // Eval counts n executions of the implementation for the current case.
-func (c *Ctx) Eval(n int) { c.Evals += uint64(n) }
+func (c *Ctx) Eval(n int) {
+	c.Evals += uint64(n)
+	if c.tick != nil && c.Evals-c.lastTick >= 512 {
+		c.lastTick = c.Evals
+		c.tick()
+	}
+}
 
 // NonTrivial marks the current case as non-trivial by the check's rule.
 func (c *Ctx) NonTrivial() { c.Nontrivial++ }
